@@ -309,9 +309,10 @@ def run_sched(case: dict[str, Any]) -> Outcome:
         sch.patch(pool_mod, "atexit", _NoAtexit)
         sch.patch(pool_mod, "SubprocessTransport", F.make_sched_transport(hist, sch))
         if case.get("trace", "lines") == "lines":
-            sch.trace_code(WorkerPool._borrow, WorkerPool._return_worker, WorkerPool._evict_oldest_locked,
-                           WorkerPool._reap_expired, WorkerPool._reaper_loop, WorkerPool.close,
-                           WorkerPool.connect.__wrapped__, _PooledTransport.close)  # type: ignore[attr-defined]
+            connect = getattr(WorkerPool, "connect", None)
+            sch.trace_code(*S.members(WorkerPool, "_borrow", "_return_worker", "_evict_oldest_locked", "_reap_expired", "_reaper_loop", "close"),
+                           *([getattr(connect, "__wrapped__", connect)] if connect is not None else []),
+                           *S.members(_PooledTransport, "close"))
         pool = WorkerPool(max_idle=max_idle, idle_timeout=idle_timeout)  # spawns the reaper: managed thread #0
         if not isinstance(pool._lock, S.Lock):
             raise S.SchedulerError("proxy threading was not picked up by WorkerPool.__init__")
